@@ -9,7 +9,8 @@
      [8; terminated; id; sname; muxer; a1; b1; ...]                     SG_MUL_VAL_
      [9; kw]                                                            unknown
      [10; id]                                                           BO_TX_BU_ / SIG_GROUP_ / SIG_VALTYPE_ (frame lookup only)
-   2001 / 2002: fold with dbc_step / dbc_step_orig from dbc_init, answer:
+   The value of a BA_ line is tag value with tag 0 number, 1 quoted string, 2 missing, 3 other token.
+   2001 / 2002 / 2005: fold with dbc_step (reader as it is) / dbc_step_orig (as found) / dbc_step_strict (declined BA_ check), answer:
      [1; cur] then per frame [10; id; ext; name; size; sender; complex; comment] [11; attrs (code tag value)*]
      and per signal [20; name; start; size; le; signed; factor; offset; mux; comment; muxer] [21; (k v)*] [22; attrs] [23; (a b)*],
      finally [30; cycle-time codes in frame order] or [30; -2] when the post-processing raises.
@@ -23,6 +24,10 @@ From CM Require Import lib.Prelude model.RunBase model.ArbId model.LineFold.
 
 Definition fld (t v : Z) : field := if t =? 0 then Num v else if t =? 1 then Str v else Bad.
 Definition fld_out (f : field) : list Z := match f with Num z => [0; z] | Str z => [1; z] | Bad => [2; 0] end.
+(* BA_ value: tag 0 number, 1 quoted string, 2 missing, 3 other token (bare word, broken string) *)
+Definition avl (t v : Z) : aval := if t =? 0 then VNum v else if t =? 1 then VStr v else if t =? 3 then VWord v else VMissing.
+Definition avl_out (a : aval) : list Z :=
+  match a with VNum z => [0; z] | VStr z => [1; z] | VMissing => [2; 0] | VWord z => [3; z] end.
 
 Fixpoint pairs_of (g : list Z) (fuel : nat) : list (field * field) :=
   match fuel with
@@ -39,8 +44,8 @@ Definition dline_of (g : list Z) : line :=
   | 2 :: n1 :: n2 :: hm :: m1 :: m2 :: r =>
       let f k := fld (nthz r (2 * k)) (nthz r (2 * k + 1)) in
       LSg (fld n1 n2) (if hm =? 0 then None else Some (fld m1 m2)) (f 0%nat) (f 1%nat) (f 2%nat) (f 3%nat) (f 4%nat) (f 5%nat)
-  | 3 :: at_ :: a :: b :: c :: d :: _ => LBaBo at_ (fld a b) (fld c d)
-  | 4 :: at_ :: a :: b :: c :: d :: e :: f :: _ => LBaSg at_ (fld a b) (fld c d) (fld e f)
+  | 3 :: at_ :: a :: b :: c :: d :: _ => LBaBo at_ (fld a b) (avl c d)
+  | 4 :: at_ :: a :: b :: c :: d :: e :: f :: _ => LBaSg at_ (fld a b) (fld c d) (avl e f)
   | 5 :: a :: b :: c :: d :: _ => LCmBo (fld a b) (fld c d)
   | 6 :: a :: b :: c :: d :: e :: f :: _ => LCmSg (fld a b) (fld c d) (fld e f)
   | 7 :: t :: a :: b :: c :: d :: r => LVal (fld a b) (fld c d) (pairs_of r (length r)) (zb t)
@@ -50,7 +55,7 @@ Definition dline_of (g : list Z) : line :=
   | _ => LUnknown (-1)
   end.
 
-Definition attrs_out (l : list (Z * field)) : list Z := flat_map (fun kv => fst kv :: fld_out (snd kv)) l.
+Definition attrs_out (l : list (Z * aval)) : list Z := flat_map (fun kv => fst kv :: avl_out (snd kv)) l.
 Definition pairs_out (l : list (Z * Z)) : list Z := flat_map (fun kv => [fst kv; snd kv]) l.
 
 Definition sig_out (x : signal) : io :=
@@ -65,6 +70,7 @@ Definition dstate_out (s : dstate) (post : option (list (arbid * Z))) : io :=
 
 Definition run_2001 (a : io) : io := let s := read dbc_step dbc_init (map dline_of a) in dstate_out s (dbc_post s).
 Definition run_2002 (a : io) : io := let s := read dbc_step_orig dbc_init (map dline_of a) in dstate_out s (dbc_post_orig s).
+Definition run_2005 (a : io) : io := let s := read dbc_step_strict dbc_init (map dline_of a) in dstate_out s (dbc_post s).
 
 Definition sline_of (g : list Z) : sline :=
   match g with
@@ -95,5 +101,6 @@ Definition run_c20 (cmd : Z) (a : io) : io :=
   | 2002 => run_2002 a
   | 2003 => run_2003 a
   | 2004 => run_2004 a
+  | 2005 => run_2005 a
   | _ => [[-999]]
   end.
